@@ -416,7 +416,7 @@ func (m *Machine) callValue(th *Thread, caller *Frame, fnv Value, args []Value, 
 		return
 	}
 	// model replacement?
-	if rep, ok := m.W.Replace[name]; ok {
+	if rep, ok := m.W.Replace[name]; ok && !(caller != nil && caller.fn == rep) {
 		m.W.noteStub(name)
 		fn = rep
 		m.pushFrame(th, fn, args, nil, retTo)
